@@ -365,8 +365,8 @@ def apply_op(w, op):
             else:
                 proxy.to_er7()
         elif kind == 'move':
-            # the child ELEMENT of another element (not a copy of it) assigned by name or by index: it leaves the other element
-            # and replaces the addressed repetition in place
+            # the child ELEMENT of another element (not a proxy of it) assigned by name or by index: whether it is moved or
+            # copied, it replaces the addressed repetition in place
             i = op['i'] if op.get('by') == 'index' else 0
             if single and not (-len(reps) <= i < len(reps)) and reps:
                 return [], 'skipped'
@@ -376,8 +376,10 @@ def apply_op(w, op):
             else:
                 setattr(el, name, child)
             _model_set(w, name, i, vals[-1])
-            if any(c is child for c in w.other.children):
-                return [('C09-moved-child-still-listed-by-its-previous-parent', '%s: %r' % (name, child))], kind
+            # the library moves the element (the statement would equally allow a copy by value): what must not happen is one
+            # and the same object listed by both elements
+            if any(c is child for c in w.other.children) and any(c is child for c in el.children):
+                return [('C09-assigned-child-listed-by-both-elements', '%s: %r' % (name, child))], kind
             setattr(w.other, name, vals[-1])        # the other element as it was, for the operations that follow
         elif kind == 'copy':
             src = getattr(w.other, name)
